@@ -2,14 +2,18 @@
 
 The pass puts the top-level callee ports into the intra-cycle schedule together with the update blocks, using
 `top._dag.top_level_callee_constraints` (pairs of ACTUAL methods / blocks collected by GenDAGPass._process_methods), which it maps
-back to CalleePort vertices and, for the method of a non-blocking interface, on to its rdy guard. That mapping is NOT modelled in
-Lean; the schedule it produces is checked here against the declared constraints themselves.
+back to CalleePort vertices and, for the method of a non-blocking interface, on to its rdy guard. The direct oracle judges the schedule
+it produces against the declared constraints themselves; the pass (mapping, graph, SCC sort, wrappers, run-time protocol) is modelled in
+Lean (Model/OpenLoop.lean, Props/C02o.lean) and compared with the real pass and the real execution order below ("model tie").
 
 designs:        generated tops exposing 1-4 callee ports (@method_port, @non_blocking with rdy) and 1-4 update / update_once blocks,
                 explicit constraints of the shapes U<M, M<U, M<M, M==M among them (consistent with one rank order, so a schedule
                 exists; an == class on one side of a < only), a child with constrained method ports called by the top's blocks;
                 stdlib NormalQueueCL / PipeQueueCL / BypassQueueCL as top.  Each: elaborate + GenDAGPass + OpenLoopCLPass, repeated with
-                the global `random` re-seeded (the pass shuffles its vertices).
+                the global `random` re-seeded (the pass shuffles its vertices).  Second family (model tie and its own static oracle
+                `static_check2`): value wires between the update blocks, free (not rank-consistent) constraints — non-trivial SCCs,
+                method -> block -> rdy rings that only the pass's assert reports — and, for a third of them, a top that exposes the
+                ports of the generated design through its own CalleePort / CalleeIfcCL objects (method nets).
 direct oracle:  the installed schedule is read from the wrapper closures (my_idx_orig, my_idx_new, schedule_no_method): every update
                 block exactly once; for every DECLARED constraint X < Y (ports and blocks taken from add_constraints' own arguments,
                 Y replaced by its rdy when it is the method of a non-blocking interface, X / Y widened by a declared ==), both ends
@@ -19,11 +23,53 @@ direct oracle:  the installed schedule is read from the wrapper closures (my_idx
                 cycle), and two consecutive calls ordered by the constraints happen in the same cycle / the next one as the order
                 demands; stdlib queues: FIFO behaviour, NormalQueueCL's rdy reflects the occupancy at the start of the cycle.
 model tie:      the block-level pairs GenDAGPass adds for the NON-top methods: Model/Methods.process vs all_constraints (c02_methods).
-                Any topological order of the resulting graph is acceptable (PV.C02.kahn_sound, PV.C11s for the SCC-level sort).
+                The pass itself is modelled in Model/OpenLoop.lean (theorems: Props/C02o.lean, driver pv_openloop): the model's
+                input (blocks, callee ports / interfaces with their ACTUAL methods, all_constraints and
+                top_level_callee_constraints in set iteration order, the shuffled vertex list, the ffs configuration) is read off
+                the real design (`ModelTie`), and compared exactly: the installed schedule (ports, blocks, SCC wrappers, ffs layout),
+                every wrapper's (my_idx_orig, my_idx_new), and — for random call sequences over several cycles, with sim_reset at the
+                start and sometimes in the middle — the execution order observed with sys.setprofile (update blocks, ff-phase
+                functions, the user-level method / rdy functions) and sim_cycle_count() after every call, against the model's plan.
 """
-import random
+import random, sys
 
+from ..common import leanio
+from ..common.leanio import InfraError
 from . import c02_methods
+
+DRIVERS = ['openloop']
+MODULE = 'PymtlVerif.Props.C02o'
+THEOREMS = ['PV.C02o.' + t for t in [
+  'map_exact', 'map_assert', 'edges_exact', 'static_total', 'schedule_partition', 'schedule_respects_edges', 'callee_constraint_scheduled',
+  'guardless_right_end', 'guarded_right_end', 'rdy_before_method', 'assert_iff_leftover', 'schedule_shape', 'wrap_exact', 'exec_total',
+  'call_plan', 'invariant', 'cycle_is_schedule_sublist', 'every_entry_once_per_cycle', 'methods_in_call_order', 'cycle_count',
+  'same_cycle_iff_ascending', 'pair_order_at_runtime', 'constraint_order_at_runtime', 'writer_before_reader_at_runtime', 'exec_frame',
+  'reset_effect']]
+THEOREM_MODULE = {t: MODULE for t in THEOREMS}
+TRUSTED = [
+  'Model/OpenLoop.lean stands for OpenLoopCLPass.schedule_with_top_level_callee and the wrappers it installs; parameters taken from the '
+  'environment are arguments of the model: the vertex order after random.shuffle (captured by a proxy for the module attribute `random` of '
+  'OpenLoopCLPass.py, harness process only), the iteration order of the sets all_constraints / top_level_callee_constraints (the harness '
+  'iterates the same set objects), the iteration order of the int sets G_new[i] (theorems: any permutation; driver: by table slot, which is '
+  'CPython\'s order when the members do not collide in the table — checked per row, other cases are counted as `inexact` and only their SCC '
+  'partition is compared) and tmp_schedule of a non-trivial SCC (theorems: any permutation; driver: the observed list)',
+  'c02_openloop.ModelTie reads the model input off the elaborated design after GenDAGPass (object -> id by dict semantics, as the pass\'s own '
+  'dicts and sets) and reads the result back from the closures of sim_reset / the method wrappers',
+]
+ASSUMPTIONS = [
+  'open-loop scheduler: MODELLED (Model/OpenLoop.lean) and proved for every input, every shuffle, every set order and every sequence of top-level '
+  'calls (Props/C02o.lean): the raw-method -> CalleePort -> rdy-guard translation of top_level_callee_constraints, the graph (rdy -> method edges '
+  'only in E, not in G), SCC partition (PV.Scc.kosaraju), G_new from E, the worklist sort with Q.pop(0), the assert, update_schedule, the ffs '
+  'layout, wrapper indices, the run-time protocol of actual_method (finish the cycle when the call comes too late, catch up, call) and '
+  'sim_reset. PARTIAL: a non-trivial SCC is one schedule entry run once per cycle (its inner iteration and BFS order are C11\'s subject, the '
+  'order is a parameter); a CalleePort inside a non-trivial SCC is not wrapped by the pass and is outside the run-time theorems; '
+  'print_line_trace / VCD / text-wave entries of ffs are modelled as opaque functions; GenDAGPass\'s production of '
+  'top_level_callee_constraints is an input here (its == widening is covered by the declared-constraint oracle of this module)',
+]
+RULE = ('open-loop model tie: the generated tops of c02_openloop (1-4 callee ports, 1-4 blocks, U<M / M<U / M<M / M==M) and a second family with value '
+        'wires between the blocks, free (not rank-consistent) constraints incl. method -> block -> rdy rings that must hit the assert, a third of them behind a top that re-exports the ports through method nets, and the three stdlib '
+        'queues as top; per design several shuffles; per schedule a random call sequence of 6-14 calls (rdy / method / plain ports in any order, '
+        'sim_reset first in 3 of 4 runs, a second sim_reset in the middle in 1 of 5); non-trivial = at least one callee constraint edge in E')
 
 GEN_HEAD = '''from pymtl3 import *
 TRACE = []
@@ -39,8 +85,9 @@ class OC{u}( Component ):
 '''
 
 class OLDesign:
-  def __init__(self, rng, uid):
+  def __init__(self, rng, uid, wires=False, free=False):
     self.rng, self.uid = rng, uid
+    self.wires, self.free, self.reads = wires, free, {}
     self.mp = rng.randint(0, 3)
     self.nb = rng.randint(0 if self.mp else 1, 2)
     while not 1 <= self.mp + self.nb <= 4: self.nb = rng.randint(0, 2)
@@ -71,7 +118,7 @@ class OLDesign:
       if x.split('.')[0] == y.split('.')[0]: continue                      # rdy / method of one interface
       if self.eq and x in self.eq and y in self.eq: continue
       if len(cls(x)) > 1 and len(cls(y)) > 1: continue
-      if all(self.rank[xs] < self.rank[guard(ys)] for xs in cls(x) for ys in cls(y)) and (x, y) not in self.lt: self.lt.append((x, y))
+      if (free or all(self.rank[xs] < self.rank[guard(ys)] for xs in cls(x) for ys in cls(y))) and (x, y) not in self.lt: self.lt.append((x, y))
     # child methods called by two blocks, in rank order
     self.ccalls = {}
     if self.child:
@@ -81,14 +128,42 @@ class OLDesign:
         self.ccalls = {a: 's.c.p()', b: 's.c.q()'}
       else: self.child = False
     self.text_order = list(self.blocks); rng.shuffle(self.text_order)
+    if wires:
+      # second family: every `update` block drives its own wire o_<b> from the wires of the blocks it reads (rank order; `free`: any order,
+      # so value cycles = non-trivial SCCs can arise)
+      ub = [b for b, k in self.blocks if k == 'update']
+      for a in ub:
+        for b in ub:
+          if a != b and rng.random() < 0.45 and (self.rank[a] < self.rank[b] or (free and rng.random() < 0.6)):
+            self.reads.setdefault(b, []).append(a)
+      if free and self.nb and rng.random() < 0.5:
+        # a ring the pass can only report through its assert: n.method -> block -> n.rdy (and rdy -> method is implicit)
+        b = rng.choice([b for b, _ in self.blocks]); n = f'n{rng.randrange(self.nb)}'
+        for c in [(n, b), (b, n + '.rdy')]:
+          if c not in self.lt: self.lt.append(c)
+
+  def wrapper_source(self, rng):
+    """a top that exposes (some of) the callee ports of the generated design through its own CalleePort / CalleeIfcCL objects"""
+    u = self.uid
+    names = [f'm{i}' for i in range(self.mp)] + [f'n{i}' for i in range(self.nb)]
+    keep = [n for n in names if rng.random() < 0.8] or [rng.choice(names)]
+    L = [f'class OW{u}( Component ):', '  def construct( s ):', f'    s.inner = OT{u}()']
+    for n in keep:
+      L += [f'    s.{n} = ' + ('CalleePort()' if n.startswith('m') else 'CalleeIfcCL()'), f'    connect( s.{n}, s.inner.{n} )']
+    return '\n'.join(L) + '\n'
 
   def source(self):
     u = self.uid
     t = lambda v: f'U( {v} )' if v.startswith('b') else f'M( s.{v} )'
     L = [GEN_HEAD.format(u=u), f'class OT{u}( Component ):', '  def construct( s ):']
     if self.child: L.append(f'    s.c = OC{u}()')
+    if self.wires:
+      for b, k in self.blocks:
+        if k == 'update': L.append(f'    s.o_{b} = Wire( Bits8 )')
     for b, k in self.text_order:
       L += [f'    @{k}', f'    def {b}():', f"      TRACE.append( '{b}' )"]
+      if self.wires and k == 'update':
+        L.append(f'      s.o_{b} @= ' + (' | '.join(f's.o_{a}' for a in self.reads[b]) if self.reads.get(b) else '1'))
       if b in self.ccalls: L.append(f'      {self.ccalls[b]}')
     cons = [f'{t(x)} < {t(y)}' for x, y in self.lt] + ([f'{t(self.eq[0])} == {t(self.eq[1])}'] if self.eq else [])
     self.rng.shuffle(cons)
@@ -258,6 +333,322 @@ def queue_behaviour(ck, kind, top, case):
   if problems:
     ck.violation('openloop-order', {'tag': kind, 'where': 'behaviour'}, case, {'problems': problems})
 
+
+# ----------------------------------------------------------------------------------------------------------------------
+# model tie: Model/OpenLoop.lean (driver pv_openloop) against the real pass and the real execution order
+# ----------------------------------------------------------------------------------------------------------------------
+
+class capture_shuffle:
+  """record the list OpenLoopCLPass shuffles (its `vertices`): a proxy for the attribute `random` of the pass's module, harness
+  process only; every other attribute is the real module's"""
+  def __enter__(self):
+    import pymtl3.passes.autotick.OpenLoopCLPass as m
+    self.m, self.orig, self.lists = m, m.random, []
+    cap = self
+    class Proxy:
+      def __getattr__(s, name): return getattr(cap.orig, name)
+      def shuffle(s, l, *a, **k):
+        cap.orig.shuffle(l, *a, **k); cap.lists.append(list(l))
+    m.random = Proxy()
+    return self
+  def __exit__(self, *a):
+    self.m.random = self.orig
+
+def user_code(port):
+  """code object of the user-level function behind a callee port (below the CL-trace wrapper, the bound method and the
+  `_bound_method` closure of a rdy function)"""
+  m = port.__dict__.get('raw_method') or port.__dict__.get('original_method') or port.method
+  for _ in range(6):
+    if hasattr(m, '__func__'): m = m.__func__; continue
+    if getattr(m, '__name__', '') in ('_bound_method', '_binded_method') and m.__closure__:
+      cells = dict(zip(m.__code__.co_freevars, [c.cell_contents for c in m.__closure__]))
+      if 'method' in cells: m = cells['method']; continue
+    break
+  return m.__code__
+
+class ModelTie:
+  """phase 1 (after GenDAGPass, before OpenLoopCLPass): the model's input; phase 2 (after the pass): the real result"""
+  def __init__(self, top):
+    from pymtl3.dsl.Connectable import CalleeIfcCL, CalleePort
+    self.top = top
+    self.ids, self.names = {}, {}
+    V0 = top._dag.final_upblks - top.get_all_update_ff()
+    self.blocks = sorted(V0, key=lambda b: b.__name__)
+    for b in self.blocks: self.oid(b, b.__name__)
+    allports = top.get_all_object_filter(lambda x: isinstance(x, CalleePort) and x.get_host_component() is top)
+    self.ports = [x for x in allports if not x.in_non_blocking_interface()]
+    self.ifcs = list(top.get_all_object_filter(lambda x: isinstance(x, CalleeIfcCL) and x.get_host_component() is top))
+    self.port_rows = [(self.oid(x, vname(x)), self.oid(x.method, 'raw:' + vname(x))) for x in self.ports]
+    self.ifc_rows = [(self.oid(x.method, vname(x.method)), self.oid(x.rdy, vname(x.rdy)),
+                      self.oid(x.method.method, 'raw:' + vname(x.method)), self.oid(x.rdy.method, 'raw:' + vname(x.rdy))) for x in self.ifcs]
+    self.portverts = list(self.ports) + [p for x in self.ifcs for p in (x.method, x.rdy)]
+    nm = lambda x: getattr(x, '__name__', None) or repr(x)
+    self.cons = [(self.oid(u, nm(u)), self.oid(v, nm(v))) for (u, v) in top._dag.all_constraints]
+    self.tlc = [(self.oid(u, 'raw:' + nm(u)), self.oid(v, 'raw:' + nm(v))) for (u, v) in top._dag.top_level_callee_constraints]
+    self.vertex_ids = [self.ids[b] for b in self.blocks] + [self.ids[p] for p in self.portverts]
+    # every callee port of the design that stands for a top-level one (itself, or a member of its method net: same ACTUAL method)
+    self.alias = {}
+    for q in top.get_all_object_filter(lambda x: isinstance(x, CalleePort)):
+      for tp in self.portverts:
+        if q is tp or (q.method is not None and q.method == tp.method): self.alias[q] = tp
+
+  def oid(self, x, name):
+    if x not in self.ids:
+      self.ids[x] = len(self.ids); self.names[self.ids[x]] = name
+    return self.ids[x]
+
+  def after(self, op, cap):
+    """read the real result; returns an error string or None"""
+    from pymtl3.passes.tracing.CLLineTracePass import CLLineTracePass
+    from pymtl3.passes.tracing.PrintTextWavePass import PrintTextWavePass
+    from pymtl3.passes.tracing.VcdGenerationPass import VcdGenerationPass
+    top = self.top
+    if len(cap.lists) != 1: return f'{len(cap.lists)} shuffles recorded'
+    if any(v not in self.ids for v in cap.lists[0]): return 'shuffled vertex unknown to the extraction'
+    self.order = [self.ids[v] for v in cap.lists[0]]
+    fn = top.sim_reset
+    cells = dict(zip(fn.__code__.co_freevars, fn.__closure__))
+    sched_of = lambda f: list(dict(zip(f.__code__.co_freevars, f.__closure__))['schedule'].cell_contents)
+    self.ups, self.ffs = sched_of(cells['up'].cell_contents), sched_of(cells['ff'].cell_contents)
+    self.snm = self.ups + self.ffs
+    self.ffblocks = [self.oid(b, b.__name__) for b in top._sched.schedule_ff]
+    self.flips = list(top._sched.schedule_posedge_flip)
+    self.cfg = (bool(op.print_line_trace), self.ffblocks, top.has_metadata(VcdGenerationPass.vcd_func),
+                top.has_metadata(PrintTextWavePass.textwave_func), list(range(len(self.flips))),
+                top.has_metadata(CLLineTracePass.clear_cl_trace_func))
+    self.ff_expected = {'clearcl': top.get_metadata(CLLineTracePass.clear_cl_trace_func) if self.cfg[5] else None,
+                        'vcd': top.get_metadata(VcdGenerationPass.vcd_func) if self.cfg[2] else None,
+                        'textwave': top.get_metadata(PrintTextWavePass.textwave_func) if self.cfg[3] else None}
+    # the wrappers
+    self.wrapped = {}
+    for p in self.portverts:
+      f = p.method
+      if getattr(f, '__name__', '') == 'actual_method' and f.__closure__:
+        c = dict(zip(f.__code__.co_freevars, [x.cell_contents for x in f.__closure__]))
+        if c['schedule_no_method'] != self.snm: return f'schedule_no_method of {vname(p)} is not ups + ffs of sim_reset'
+        self.wrapped[p] = (c['my_idx_orig'], c['my_idx_new'])
+    n = len(self.snm) + len(self.wrapped)
+    full = [None] * n
+    for p, (o, _) in self.wrapped.items():
+      if not 0 <= o < n or full[o] is not None: return f'bad my_idx_orig {o}'
+      full[o] = p
+    it = iter(self.snm)
+    for k in range(n):
+      if full[k] is None: full[k] = next(it)
+    self.full = full
+    self.intras = []
+    for f in self.ups:
+      if getattr(f, '__name__', '').startswith('wrapped_SCC'):
+        g = f.__globals__.get('scc')
+        if not isinstance(g, list) or any(b not in self.ids for b in g): return 'SCC wrapper without a readable member list'
+        self.intras.append([self.ids[b] for b in g])
+    return None
+
+  def real_slots(self):
+    out = []
+    for x in self.full[:len(self.full) - len(self.ffs)]:
+      if x in self.wrapped: out.append(['port', str(self.ids[x])])
+      elif getattr(x, '__name__', '').startswith('wrapped_SCC'):
+        out.append(['scc', x.__name__[len('wrapped_SCC_'):]] + [str(self.ids[b]) for b in x.__globals__['scc']])
+      elif x in self.ids: out.append(['blk', str(self.ids[x])])
+      else: out.append(['unknown', getattr(x, '__name__', '?')])
+    for f in self.ffs:
+      nm = getattr(f, '__name__', '?')
+      if nm == '<lambda>' and f.__code__.co_filename.endswith('OpenLoopCLPass.py'): out.append(['ff', 'const'])
+      elif nm == 'print_line_trace' and f.__code__.co_filename.endswith('OpenLoopCLPass.py'): out.append(['ff', 'print'])
+      elif f in self.ids and self.ids[f] in self.ffblocks: out.append(['ff', f'ffblk{self.ids[f]}'])
+      elif any(f is g for g in self.flips): out.append(['ff', f'flip{[g is f for g in self.flips].index(True)}'])
+      else:
+        k = [k for k, g in self.ff_expected.items() if g is not None and g is f]
+        out.append(['ff', k[0] if k else 'unknown:' + nm])
+    return out
+
+  def line(self, ops):
+    return leanio.line('openloop', 'run', ['blocks'] + [self.ids[b] for b in self.blocks], ['ports'] + [list(r) for r in self.port_rows],
+                       ['ifcs'] + [list(r) for r in self.ifc_rows], ['cons'] + [list(c) for c in self.cons],
+                       ['tlc'] + [list(c) for c in self.tlc], ['order'] + self.order,
+                       ['ff', self.cfg[0], ['ffblocks'] + self.cfg[1], self.cfg[2], self.cfg[3], ['flips'] + self.cfg[4], self.cfg[5]],
+                       ['intra'] + self.intras, ['ops'] + ops)
+
+  def model_input(self):
+    return {'blocks': [self.ids[b] for b in self.blocks], 'ports': self.port_rows, 'ifcs': self.ifc_rows, 'cons': self.cons, 'tlc': self.tlc,
+            'order': getattr(self, 'order', None), 'names': {str(k): v for k, v in sorted(self.names.items())}}
+
+  def run_ops(self, rng, nops, protocol=False):
+    """random top-level calls on the real simulator; returns (ops for the model, observed events, cycle counts after each op, error).
+    protocol: a method of a non-blocking interface is only called after its rdy returned True (stdlib queues)"""
+    top = self.top
+    code2 = {}
+    for k, f in enumerate(self.snm):
+      if hasattr(f, '__code__'): code2.setdefault(f.__code__, []).append(f'r{k}')
+    nargs = {}
+    for p, (o, _) in self.wrapped.items():
+      code = user_code(p)
+      code2.setdefault(code, []).append(f'm{o}'); nargs[p] = max(code.co_argcount - 1, 0)
+    events = []
+    def prof(frame, event, arg):
+      if event == 'call':
+        lab = code2.get(frame.f_code)
+        if lab is not None: events.append(lab)
+    wl = sorted(self.wrapped, key=lambda p: self.wrapped[p][0])
+    ifc_of = {x.method: x for x in self.ifcs}
+    ops, cyc = [], []
+    def do(p):
+      sys.setprofile(prof)
+      try: r = top.sim_reset() if p is None else p(*([1] * nargs[p]))
+      finally: sys.setprofile(None)
+      ops.append('reset' if p is None else self.ids[p]); cyc.append(top.sim_cycle_count())
+      return r
+    try:
+      if rng.random() < 0.75: do(None)
+      while len(ops) < nops and wl:
+        if rng.random() < 0.04: do(None); continue
+        p = rng.choice(wl)
+        if p in ifc_of and ifc_of[p].rdy in self.wrapped and (protocol or rng.random() < 0.5):
+          if not do(ifc_of[p].rdy): continue          # the protocol of a non-blocking interface: ask rdy, call only if ready
+        do(p)
+    except Exception as e:
+      return ops, events, cyc, f'{type(e).__name__}: {e}'[:300]
+    return ops, events, cyc, None
+
+def reply_tree(rep):
+  return {t[0]: t[1:] for t in leanio.parse_sexp(rep) if isinstance(t, list)}
+
+def model_tie_static(ck, tie, rep, case):
+  """compare the model's static result (reply `rep`) with the real one; returns (ok, exact, tree)"""
+  tree = reply_tree(rep)
+  if not rep.startswith('ok '):
+    ck.disagreement('OpenLoopCLPass≈Model/OpenLoop: verdict', case, rep[:300], 'scheduled')
+    return False, False, tree
+  n = len(tree['sccs'])
+  rows = [[int(x) for x in r] for r in tree['gnew']]
+  # CPython iterates a set of small ints by table slot (x % 8 below 5 members, x % 32 from the fifth on): reproducible when no two
+  # members share a slot (the driver orders the rows that way)
+  exact = all((len(r) < 5 and len({x % 8 for x in r}) == len(r)) or (len(r) >= 5 and n <= 32) for r in rows)
+  ck.hist('openloop_model_exact', int(exact))
+  real = tie.real_slots()
+  msched = tree['sched']
+  if exact:
+    if msched != real:
+      ck.disagreement('OpenLoopCLPass≈Model/OpenLoop: schedule (update_schedule + ffs)', case, msched, real)
+      return False, exact, tree
+    mw = sorted((int(v), int(o), int(k)) for v, o, k in tree['wraps'])
+    rw = sorted((tie.ids[p], o, k) for p, (o, k) in tie.wrapped.items())
+    if mw != rw:
+      ck.disagreement('OpenLoopCLPass≈Model/OpenLoop: wrapper indices (vertex, my_idx_orig, my_idx_new)', case, mw, rw)
+      return False, exact, tree
+  else:
+    key = lambda s: sorted((tuple(sorted(x[2:])) if x[0] == 'scc' else (x[0], x[1])) for x in s)
+    if key(msched) != key(real):
+      ck.disagreement('OpenLoopCLPass≈Model/OpenLoop: schedule entries (as a set; G_new row order not reproducible)', case, msched, real)
+      return False, exact, tree
+  return True, exact, tree
+
+def model_tie_dynamic(ck, tie, tree, ops, events, cyc, err, case):
+  if err is not None:
+    ck.disagreement('OpenLoopCLPass≈Model/OpenLoop: a top-level call raised', dict(case, ops=ops), 'no call of a wrapped port raises', err); return
+  flat = [e for c in tree['done'] for e in c] + list(tree['cur'])
+  mcyc = [int(c) for c in tree['cycles']]
+  bad = len(flat) != len(events) or any(m not in labs for m, labs in zip(flat, events))
+  if bad or mcyc != cyc:
+    k = next((i for i, (m, labs) in enumerate(zip(flat, events)) if m not in labs), min(len(flat), len(events)))
+    ck.disagreement('OpenLoopCLPass≈Model/OpenLoop: execution order of a call sequence (sys.setprofile) / sim_cycle_count',
+                    dict(case, ops=ops), {'events': ' '.join(flat)[:600], 'cycles': mcyc, 'first_difference_at': k},
+                    {'events': ' '.join('|'.join(l) for l in events)[:600], 'cycles': cyc})
+
+def model_tie(ck, top, op, case, rng2, lines, meta, nops, protocol=False):
+  """apply the pass with the shuffle captured, run a random call sequence, queue the model request"""
+  tie = ModelTie(top)
+  real_err = None
+  with capture_shuffle() as cap:
+    try: top.apply(op)
+    except Exception as e: real_err = type(e).__name__
+  c = dict(case); c['model'] = True
+  if real_err:
+    if len(cap.lists) != 1: raise InfraError(f'c02_openloop.ModelTie: {real_err} before the shuffle')
+    tie.order = [tie.ids[v] for v in cap.lists[0]]
+    tie.cfg, tie.intras = (False, [], False, False, [], False), []
+    c['model_input'] = tie.model_input()
+    lines.append(tie.line([])); meta.append((tie, c, real_err, None, None, None))
+    return tie
+  err = tie.after(op, cap)
+  if err: raise InfraError(f'c02_openloop.ModelTie: {err}')
+  ops, events, cyc, rerr = tie.run_ops(rng2, nops, protocol=protocol)
+  c['model_input'] = tie.model_input()
+  lines.append(tie.line(ops)); meta.append((tie, c, None, (ops, events, cyc), rerr, None))
+  return tie
+
+def model_compare(ck, lines, meta):
+  if not lines: return
+  replies = ck.drv('openloop').batch(lines)
+  for (tie, case, real_err, run, rerr, _), rep in zip(meta, replies):
+    tie.top = None
+    if reply_tree(rep).get('portinscc') == ['1']:
+      # a CalleePort inside a non-trivial SCC: the pass sorts the group by __name__ (AttributeError), or generates a wrapper that calls the
+      # port, and does not wrap the port: outside the model (and outside what the pass supports)
+      ck.hist('openloop_model_verdict', 'port-in-scc:' + (real_err or 'scheduled'))
+      if real_err is None and all(p in tie.wrapped for p in tie.portverts):
+        ck.disagreement('OpenLoopCLPass≈Model/OpenLoop: verdict', case, 'a callee port lies on a constraint cycle (non-trivial SCC): ' + rep[:300],
+                        'scheduled, every callee port wrapped: ' + str(tie.real_slots()))
+      continue
+    if real_err:
+      ck.hist('openloop_model_verdict', real_err)
+      if not (real_err == 'AssertionError' and rep.startswith('err schedAssert')):
+        ck.disagreement('OpenLoopCLPass≈Model/OpenLoop: verdict', case, rep[:300], real_err)
+      continue
+    ck.hist('openloop_model_verdict', 'ok')
+    ok, exact, tree = model_tie_static(ck, tie, rep, case)
+    ck.hist('openloop_model_sccs', min(len(tree.get('sccs', [])), 12))
+    ck.hist('openloop_model_nontrivial_groups', sum(1 for g in tree.get('sccs', []) if len(g) > 1))
+    ck.hist('openloop_model_callee_edges', min(len(tie.tlc), 6))
+    if ok and exact: model_tie_dynamic(ck, tie, tree, run[0], run[1], run[2], rerr, case)
+
+
+def static_check2(ck, d, tie, case):
+  """direct oracle for the second family, on the schedule the pass installed (SCC wrappers allowed): every block exactly once (as an
+  entry or inside exactly one wrapper); every declared pair and every writer -> reader pair of the value wires in order, unless both
+  ends sit in one wrapper"""
+  where = {}
+  dup = []
+  for k, x in enumerate(tie.full[:len(tie.full) - len(tie.ffs)]):
+    ms = x.__globals__['scc'] if getattr(x, '__name__', '').startswith('wrapped_SCC') else [x]
+    for m in ms:
+      if m in where: dup.append(vname(m))
+      where[m] = k
+  missing = [b.__name__ for b in tie.blocks if b not in where]
+  if dup or missing:
+    ck.violation('openloop-schedule', {'tag': 'gen2', 'what': 'blocks-not-exactly-once'}, case,
+                 {'duplicates': dup, 'missing': missing, 'oracle': 'every update block exactly once in the open-loop schedule'})
+    return
+  al = lambda x: tie.alias.get(x, x)
+  req = [(al(a), al(b), w) for a, b, w in declared_pairs(tie.top, set(tie.alias) | set(tie.blocks))]
+  byname = {b.__name__: b for b in tie.blocks}
+  req += [(byname[a], byname[b], f'{b} reads o_{a}') for b, rs in d.reads.items() for a in rs]
+  bad = [(vname(a), vname(b), why) for a, b, why in req if a in where and b in where and where[a] != where[b] and not where[a] < where[b]]
+  if bad:
+    ck.violation('openloop-order', {'tag': 'gen2', 'where': 'schedule'}, case,
+                 {'violated': bad[:6], 'schedule': [vname(v) if v in tie.ids else getattr(v, '__name__', '?') for v in tie.full],
+                  'oracle': 'every declared X < Y and every writer -> reader pair between different schedule entries is honoured'})
+
+def second_family(ck, rng2, tlines, tmeta, ndes, reps, nops):
+  """tops with value wires between the update blocks and free (not rank-consistent) constraints: non-trivial SCCs, rings that
+  only the assert reports"""
+  for _ in range(ndes):
+    d = OLDesign(rng2, next(c02_methods._uid), wires=True, free=rng2.random() < 0.6)
+    src = d.source()
+    wrapped = rng2.random() < 0.35
+    if wrapped: src += d.wrapper_source(rng2)
+    topname = f'OW{d.uid}' if wrapped else f'OT{d.uid}'
+    cls = c02_methods.load(ck, src, topname)
+    for rep in range(reps):
+      seed = rng2.randrange(1 << 30)
+      case = {'openloop': True, 'source': src, 'top': topname, 'seed': seed, 'family': 2}
+      ck.count({'src': hash(src) & 0xffffffff, 'seed': seed, 'family': 2}, bool(d.lt))
+      ck.hist('openloop_design', 'gen2-wrapped' if wrapped else 'gen2')
+      top = cls()
+      tie = model_tie(ck, top, apply_openloop(top, seed), case, rng2, tlines, tmeta, nops)
+      if hasattr(tie, 'full') and all(p in tie.wrapped for p in tie.portverts): static_check2(ck, d, tie, case)
+
 def run(ck):
   # own PRNG and the global `random` state restored afterwards: the other streams of c02.run are not perturbed
   rng = random.Random(f'{ck.seed}:C02:{ck.tier}:openloop')
@@ -268,6 +659,10 @@ def run(ck):
 def _run(ck, rng):
   lines, meta = [], []
   ndes, reps = (40, 10) if ck.tier == 'quick' else (300, 12)
+  # model tie (Model/OpenLoop.lean): own PRNG, own instances of the designs — the stream above is not perturbed
+  rng2 = random.Random(f'{ck.seed}:C02:{ck.tier}:openloop-model')
+  tlines, tmeta = [], []
+  tie_reps, nops = (5, 12) if ck.tier == 'quick' else (8, 14)
   for _ in range(ndes):
     d = OLDesign(rng, next(c02_methods._uid))
     src = d.source()
@@ -294,6 +689,8 @@ def _run(ck, rng):
       if res is None: continue
       ck.hist('openloop_required_pairs', min(len(res[2]), 10))
       behaviour(ck, d, top, mod, case, res[2], rng)
+      if rep < tie_reps:
+        top2 = cls(); model_tie(ck, top2, apply_openloop(top2, seed), case, rng2, tlines, tmeta, nops)
   # stdlib queues at top
   from pymtl3.stdlib.queues.cl_queues import BypassQueueCL, NormalQueueCL, PipeQueueCL
   for Q in (NormalQueueCL, PipeQueueCL, BypassQueueCL):
@@ -304,10 +701,44 @@ def _run(ck, rng):
         ck.count(case, True); ck.hist('openloop_design', Q.__name__)
         top = Q(n); top.apply(apply_openloop(top, seed))
         if static_check(ck, top, case, Q.__name__) is not None and n == 1: queue_behaviour(ck, Q.__name__, top, case)
+        if rep < tie_reps:
+          top2 = Q(n); model_tie(ck, top2, apply_openloop(top2, seed), case, rng2, tlines, tmeta, nops, protocol=True)
   c02_methods.compare(ck, lines, meta)
+  # ck.count draws from ck.rng: put its state back so that the streams that run after this one generate what they generated before
+  # the second family existed
+  state = ck.rng.getstate()
+  try: second_family(ck, rng2, tlines, tmeta, ndes, tie_reps, nops)
+  finally: ck.rng.setstate(state)
+  model_compare(ck, tlines, tmeta)
   ck.extra_cov['openloop_designs'] = ndes + 6
+  ck.extra_cov['openloop_model_runs'] = len(tlines)
+
+def replay_model(ck, case):
+  """model and implementation side by side for one (design, seed): static result and one random call sequence"""
+  rng2 = random.Random(case.get('seed', 0))
+  lines, meta = [], []
+  if case.get('stdlib'):
+    from pymtl3.stdlib.queues import cl_queues
+    top = getattr(cl_queues, case['stdlib'])(case['n'])
+  else:
+    top = c02_methods.load(ck, case['source'], case['top'])()
+  state = random.getstate()
+  try:
+    tie = model_tie(ck, top, apply_openloop(top, case['seed']), case, rng2, lines, meta, 10, protocol=bool(case.get('stdlib')))
+  finally: random.setstate(state)
+  rep = ck.drv('openloop').batch(lines)[0]
+  print('request:', lines[0][:1500]); print('model  :', rep[:1500])
+  if meta[0][2]: print('impl   :', meta[0][2])
+  else:
+    print('impl   : sched', tie.real_slots(), 'wraps', sorted((tie.ids[p], o, k) for p, (o, k) in tie.wrapped.items()))
+    print('impl   : ops', meta[0][3][0], 'events', ' '.join('|'.join(l) for l in meta[0][3][1]), 'cycles', meta[0][3][2])
+  n0 = len(ck.breaks)
+  model_compare(ck, lines, meta)
+  for b in ck.breaks[n0:]: print('DISAGREEMENT', b['correspondence'], 'model:', str(b['model'])[:600], 'impl:', str(b['impl'])[:600])
+  return 1 if len(ck.breaks) > n0 else 0
 
 def replay(ck, case):
+  if case.get('model'): return replay_model(ck, case)
   n0 = len(ck.violations)
   if case.get('stdlib'):
     from pymtl3.stdlib.queues import cl_queues
